@@ -2,6 +2,7 @@ pub mod c01;
 pub mod c02;
 pub mod c07;
 pub mod c11;
+pub mod c12;
 pub mod c13;
 pub mod c16;
 pub mod c19;
@@ -39,5 +40,13 @@ pub fn lab2() {
             println!("wakeup {:?} now {}", w.hosts[0].ctx.lock().wakeup, w.now());
             break;
         }
+    }
+}
+
+pub fn lab3() {
+    let r = (c12::SCENARIOS[2].1)(12345);
+    println!("{}", r.desc);
+    for l in r.world.trace.render(0, 80) {
+        println!("  {}", crate::util::prefix(&l, 260));
     }
 }
